@@ -110,6 +110,12 @@ public:
         for (const Op &op : p) {
             Rec r;
             step(op, r);
+            // measured API surface: public function x back end of the object at that moment x answer
+            if (op.name.rfind("new.", 0) != 0 && op.name.rfind("cap.", 0) != 0) {
+                int be = r.be;
+                if (be < 0) { Slot *sl = slot(op); if (sl && sl->live) be = sl->be; }
+                ++api_call_counts()[op.name + (be >= 0 ? "@be" + std::to_string(be) : std::string()) + (r.ret == 0 ? "=0" : "")];
+            }
             t.push_back(std::move(r));
         }
         if (o.final_cleanup) finalize();
